@@ -229,6 +229,7 @@ type stHist struct {
 	kind             string
 	alpha            int
 	clos             []string // alphabet closure, sorted bytewise ("" first)
+	vbits            int      // per-history magnitude class of leaf values (0 = ordinary)
 	st               dbadapter.Store
 	tree             sumtree.Tree
 	ref              stRef
@@ -328,6 +329,14 @@ func (h *stHist) randVal(forSet bool) *big.Int {
 		h.o.Count("value.big")
 	default:
 		v = big.NewInt(0)
+	}
+	if h.vbits > 0 && h.g.Intn(3) == 0 { // magnitude class of the history: around 2^vbits
+		if h.g.Intn(2) == 0 {
+			v = new(big.Int).Add(pow2(h.vbits), big.NewInt(int64(h.g.Intn(3)-1)))
+		} else {
+			v = h.g.randBits(h.vbits + 1)
+		}
+		h.o.Count("value.huge")
 	}
 	if forSet && h.g.Intn(10) == 0 {
 		v.Neg(v)
@@ -1014,15 +1023,28 @@ func (h *stHist) neighbour(k string, allowEmpty bool) (string, bool) {
 }
 
 func stClosure(alpha int) []string {
+	var letters []string
+	for c := 0; c < alpha; c++ {
+		letters = append(letters, string(rune('a'+c)))
+	}
+	return stClosureOf(letters)
+}
+
+// stClosureOf: all concatenations of at most three of the letters (byte strings), without duplicates, sorted bytewise.
+func stClosureOf(letters []string) []string {
+	seen := map[string]bool{}
 	var out []string
 	var rec func(p string, d int)
 	rec = func(p string, d int) {
-		out = append(out, p)
+		if !seen[p] {
+			seen[p] = true
+			out = append(out, p)
+		}
 		if d == 3 {
 			return
 		}
-		for c := 0; c < alpha; c++ {
-			rec(p+string(rune('a'+c)), d+1)
+		for _, l := range letters {
+			rec(p+l, d+1)
 		}
 	}
 	rec("", 0)
@@ -1060,6 +1082,38 @@ func runSumTree(seed int64, n int, dir string) {
 		}
 		h.alpha = 3 + g.Intn(2)
 		h.clos = stClosure(h.alpha)
+		// boundary classes of the KEY bytes (per history)
+		kclass := "ascii"
+		if c := g.Intn(100); c < 18 {
+			var letters []string
+			switch c % 3 {
+			case 0: // extreme byte values: 0x00 / 0xff inside and at the end of keys
+				kclass = "bytes-00-ff"
+				letters = []string{"\x00", "\xff", []string{"\x7f", "\x80"}[g.Intn(2)], "\x01"}[:h.alpha]
+			case 1: // long keys with a long common prefix
+				kclass = "long"
+				pre := make([]byte, 20+g.Intn(45))
+				for i := range pre {
+					pre[i] = byte(g.Intn(256))
+				}
+				for i := 0; i < h.alpha; i++ {
+					letters = append(letters, string(pre)+string([]byte{byte(g.Intn(256)), byte(i)}))
+				}
+			default: // letters of different lengths: many keys are proper prefixes of others ("a" + "b" = "ab")
+				kclass = "mixed-length"
+				letters = []string{"a", "ab", "b", "ba"}[:h.alpha]
+			}
+			h.clos = stClosureOf(letters)
+		}
+		o.Count("class.keys." + kclass)
+		// magnitude class of the leaf values (sums of a history stay below 2^255: the model does not know the 256-bit panic)
+		h.vbits = 0
+		if c := g.Intn(100); c < 15 {
+			h.vbits = []int{63, 64, 65, 127, 128, 129, 200, 245}[g.Intn(8)]
+			o.Count(fmt.Sprintf("class.values.2^%d", h.vbits))
+		} else {
+			o.Count("class.values.ordinary")
+		}
 		switch c := g.Intn(100); {
 		case c < 45:
 			h.kind = "insert-only"
